@@ -51,6 +51,10 @@ pub struct Case {
     pub end: Option<u16>,
     pub fault: Option<Fault>,
     pub cb: Callback,
+    /// stop the tool for 10.5 s right after it announced the first block, so that the driver's 10-second progress
+    /// line (and whatever housekeeping hangs on it) runs inside the verified block loop
+    #[serde(default)]
+    pub pause: bool,
 }
 
 fn tree_shapes() -> BS<usize> {
@@ -105,7 +109,7 @@ pub fn strategy(tier: Tier, faults: bool) -> BS<Case> {
                     }
                 }
             }
-            Case { chain, start, end, fault, cb }
+            Case { chain, start, end, fault, cb, pause: false }
         })
         .boxed()
 }
@@ -227,6 +231,9 @@ pub fn check(c: &Case) -> Verdict {
     o.start = if s > 0 { Some(s) } else { None };
     o.end = end;
     o.verify = true;
+    if c.pause {
+        o.pause_on = Some(("Processing blocks starting from height".to_string(), 10.5));
+    }
     let out = infra!(w.run(&o));
     if let Some(v) = timed_out_is_infra(&out) {
         return v;
@@ -299,7 +306,7 @@ fn all_flips(seed: u64, ntx: usize) -> Vec<Case> {
     let sel = |idx: usize, of: usize| (((idx as u64) * 65536 + of as u64 - 1) / of as u64) as u16;
     let (h_any, h_prev) = (sel(target, n), sel(target - 1, n - 1));
     assert!(mono(h_any, n) == target && 1 + mono(h_prev, n - 1) == target);
-    let mk = |kind, nbits: usize, k: usize| Case { chain: chain.clone(), start: 0, end: None, fault: Some(Fault { kind, h: match kind { FaultKind::PrevBit => h_prev, _ => h_any }, bit: (((k as u64) << 32) / nbits as u64 + 1).min(u32::MAX as u64) as u32 }), cb: Callback::CsvDump };
+    let mk = |kind, nbits: usize, k: usize| Case { chain: chain.clone(), start: 0, end: None, fault: Some(Fault { kind, h: match kind { FaultKind::PrevBit => h_prev, _ => h_any }, bit: (((k as u64) << 32) / nbits as u64 + 1).min(u32::MAX as u64) as u32 }), cb: Callback::CsvDump, pause: false };
     for k in 0..256 {
         v.push(mk(FaultKind::MerkleBit, 256, k));
         v.push(mk(FaultKind::PrevBit, 256, k));
@@ -325,15 +332,21 @@ fn run(eng: &Engine, a: &Args) {
     wide.real_genesis = true;
     let mut deep = Vec::new();
     for (cb, start) in [(Callback::CsvDump, 0u16), (Callback::SimpleStats, 40_000u16)] {
-        deep.push(Case { chain: wide.clone(), start, end: None, fault: None, cb });
+        deep.push(Case { chain: wide.clone(), start, end: None, fault: None, cb, pause: false });
     }
     eng.enumerate("merkle-tree-of-depth-17", deep, check);
+    // a verified run that lasts longer than the driver's 10-second status interval (5000 blocks, the tool stopped for
+    // 10.5 s after the first one): every later block is still checked against the index record before it
+    let scripts: Vec<Vec<u8>> = (0..5000usize).map(|i| { let mut s = vec![0x76, 0xa9, 0x14]; s.extend([(i & 0xff) as u8, (i >> 8) as u8].iter().cycle().take(20)); s.extend([0x88, 0xac]); s }).collect();
+    let mut long = vpmodel::spec::chain_from_scripts(Coin::Litecoin, &scripts, &[1000, 2500], 1, 1, 0, 1_400_000_000);
+    long.real_genesis = true;
+    eng.enumerate("slow-verified-run", vec![Case { chain: long.clone(), start: 0, end: None, fault: None, cb: Callback::CsvDump, pause: true }, Case { chain: long, start: 3000, end: None, fault: None, cb: Callback::Balances, pause: true }], check);
     eng.enumerate("every-bit-of-one-block", all_flips(a.seed, if a.tier == Tier::Thorough { 2 } else { 0 }), check);
 }
 
 fn replay(part: &str, case: serde_json::Value) -> Option<Verdict> {
     match part {
-        "complete" | "faults" | "every-bit-of-one-block" | "merkle-tree-of-depth-17" => Some(check(&serde_json::from_value(case).ok()?)),
+        "complete" | "faults" | "every-bit-of-one-block" | "merkle-tree-of-depth-17" | "slow-verified-run" => Some(check(&serde_json::from_value(case).ok()?)),
         _ => None,
     }
 }
